@@ -864,9 +864,55 @@ static void cfg_init_defaults(cfg_t *cfg)
 	}
 }
 
+/* Create a new, empty section for @opt, titled @title, as a child of @cfg */
+static cfg_t *cfg_newsec(cfg_t *cfg, cfg_opt_t *opt, const char *title)
+{
+	cfg_t *sec = calloc(1, sizeof(cfg_t));
+
+	if (!sec)
+		return NULL;
+
+	sec->name = strdup(opt->name);
+	if (!sec->name)
+		goto fail;
+
+	sec->flags = cfg->flags;
+	if (is_set(CFGF_KEYSTRVAL, opt->flags))
+		sec->flags |= CFGF_KEYSTRVAL;
+
+	if (cfg->filename) {
+		sec->filename = strdup(cfg->filename);
+		if (!sec->filename)
+			goto fail;
+	}
+
+	sec->line = cfg->line;
+	sec->errfunc = cfg->errfunc;
+	if (title) {
+		sec->title = strdup(title);
+		if (!sec->title)
+			goto fail;
+	}
+
+	sec->opts = cfg_dupopt_array(opt->subopts);
+	if (!sec->opts)
+		goto fail;
+
+	return sec;
+
+fail:
+	free(sec->title);
+	free(sec->filename);
+	free(sec->name);
+	free(sec);
+
+	return NULL;
+}
+
 DLLIMPORT cfg_value_t *cfg_setopt(cfg_t *cfg, cfg_opt_t *opt, const char *value)
 {
 	cfg_value_t *val = NULL;
+	int appended = 0;
 	int b = 0;
 	const char *s;
 	char *str = NULL;
@@ -1055,6 +1101,7 @@ DLLIMPORT cfg_value_t *cfg_setopt(cfg_t *cfg, cfg_opt_t *opt, const char *value)
 						opt->freecb(p);
 					return NULL;
 				}
+				appended = 1;
 			} else {
 				val = opt->values[0];
 			}
@@ -1078,51 +1125,22 @@ DLLIMPORT cfg_value_t *cfg_setopt(cfg_t *cfg, cfg_opt_t *opt, const char *value)
 
 	case CFGT_SEC:
 		if (is_set(CFGF_MULTI, opt->flags) || val->section == NULL) {
+			cfg_t *sec = cfg_newsec(cfg, opt, value);
+
+			if (!sec) {
+				if (appended) {
+					/* take the empty slot back */
+					opt->nvalues--;
+					free(val);
+				}
+				return NULL;
+			}
+
 			if (val->section) {
 				val->section->path = NULL; /* Global search path */
 				cfg_free(val->section);
 			}
-			val->section = calloc(1, sizeof(cfg_t));
-			if (!val->section)
-				return NULL;
-
-			val->section->name = strdup(opt->name);
-			if (!val->section->name) {
-				free(val->section);
-				return NULL;
-			}
-
-			val->section->flags = cfg->flags;
-			if (is_set(CFGF_KEYSTRVAL, opt->flags))
-				val->section->flags |= CFGF_KEYSTRVAL;
-
-			val->section->filename = cfg->filename ? strdup(cfg->filename) : NULL;
-			if (cfg->filename && !val->section->filename) {
-				free(val->section->name);
-				free(val->section);
-				return NULL;
-			}
-
-			val->section->line = cfg->line;
-			val->section->errfunc = cfg->errfunc;
-			val->section->title = value ? strdup(value) : NULL;
-			if (value && !val->section->title) {
-				free(val->section->filename);
-				free(val->section->name);
-				free(val->section);
-				return NULL;
-			}
-
-			val->section->opts = cfg_dupopt_array(opt->subopts);
-			if (!val->section->opts) {
-				if (val->section->title)
-					free(val->section->title);
-				if (val->section->filename)
-					free(val->section->filename);
-				free(val->section->name);
-				free(val->section);
-				return NULL;
-			}
+			val->section = sec;
 		}
 		if (!is_set(CFGF_DEFINIT, opt->flags))
 			cfg_init_defaults(val->section);
